@@ -19,6 +19,99 @@ from .c11 import enum_values
 from .smtgen import Encoder
 
 
+def functor_obligations(mir, tagname):
+    """functor/3 (MachineState::try_functor). Inspect mode: an atomic cell T gives (T, 0), a Str cell
+    (name, arity) of its own functor cell, a Lis / PStrLoc cell ('.', 2). Construct mode (T unbound):
+    unbound name or arity -> instantiation_error; a non-integer arity -> type_error; arity > MAX_ARITY
+    -> representation_error; arity < 0 -> domain_error; an atomic non-atom name with arity 0 binds T to
+    it; an atom name fabricates name/arity bound to T."""
+    out = []
+    ns = [n for n in mir.index if n.endswith("::try_functor")]
+    if len(ns) != 1:
+        raise core.Unsupported("try_functor: %s" % ns)
+    body = mir.body(ns[0])
+    heads = util.back_edge_targets(body)
+    paths = core.Executor(body, stop_blocks=tuple(heads), max_depth=600, max_paths=8000).run("bb0")
+    insp, cons = {}, {}
+    for p in paths:
+        tags = [tagname.get(c[2], str(c[2])) if c[1] == "==" else "other" for c in p.conds
+                if c[0][0] == "disc" and c[0][1][0] == "app" and c[0][1][1].endswith("get_tag")]
+        if not tags:
+            continue
+        calls = [e for e in p.events if e[0] == "call" and re.search(
+            r"try_functor_\w+$|_error$|MachineState>?::bind$", e[1])]
+        t1 = tags[0]
+        if t1 in ("Var", "StackVar", "AttrVar"):
+            cons.setdefault(t1, []).append((tags[1:], calls, p))
+        else:
+            insp.setdefault(t1, []).append((calls, p))
+    a1 = None
+    for t1 in ("Cons", "Fixnum", "F64Offset", "Atom"):
+        rs = insp.get(t1, [])
+        ok = bool(rs)
+        for calls, p in rs:
+            c = [x for x in calls if x[1].endswith("try_functor_unify_components")]
+            ok = ok and len(c) == 1 and c[0][2][2] == ("c", 0) and c[0][2][1][0] == "app" and \
+                c[0][2][1][1].endswith("::store")
+        out.append({"obligation": "functor/3: an atomic term (%s cell) has name itself and arity 0" % t1, "ok": ok})
+    rs = insp.get("Str", [])
+    ok = bool(rs)
+    for calls, p in rs:
+        c = [x for x in calls if x[1].endswith("try_functor_compound_case")]
+        if len(c) != 1:
+            ok = False
+            continue
+        nm, ar = c[0][2][1], c[0][2][2]
+        ok = ok and nm[0] == "proj" and nm[2] == ".0" and ar[0] == "proj" and ar[2] == ".1" and nm[1] == ar[1] and \
+            nm[1][0] == "app" and nm[1][1].endswith("get_name_and_arity")
+    out.append({"obligation": "functor/3: a structure has the name and arity of its own functor cell", "ok": ok})
+    for t1 in ("Lis", "PStrLoc"):
+        rs = insp.get(t1, [])
+        ok = bool(rs)
+        for calls, p in rs:
+            c = [x for x in calls if x[1].endswith("try_functor_compound_case")]
+            ok = ok and len(c) == 1 and c[0][2][2] == ("c", 2) and c[0][2][1][0] == "agg" and \
+                core.atom_text(c[0][2][1][2][0][1]) == "."
+        out.append({"obligation": "functor/3: a list (%s cell) has name '.' and arity 2" % t1, "ok": ok})
+    for t1 in ("Var", "StackVar", "AttrVar"):
+        rs = cons.get(t1, [])
+        errs = set()
+        fab_ok, bind_ok = True, True
+        n_fab = n_bind = 0
+        for tags, calls, p in rs:
+            for x in calls:
+                nm = x[1].split("::")[-1]
+                if nm.endswith("_error") and nm != "throw_resource_error":
+                    errs.add(nm)
+                if nm == "try_functor_fabricate_struct":
+                    n_fab += 1
+                    name_ok = x[2][1][0] == "proj" and x[2][1][2] == ".0"
+                    fab_ok = fab_ok and tags[:1] in (["Atom"], ["Str"]) and name_ok
+                if nm == "bind":
+                    n_bind += 1
+                    bind_ok = bind_ok and tags[:1] in (["Cons"], ["Fixnum"], ["F64Offset"])
+        need = {"instantiation_error", "type_error", "representation_error", "domain_error"}
+        out.append({"obligation": "functor/3 with unbound T (%s): the four error classes of 8.5.1.3 are raised" % t1,
+                    "ok": need <= errs, "why": str(sorted(errs))})
+        out.append({"obligation": "functor/3 with unbound T (%s): an atom name builds name/arity, an atomic "
+                    "non-atom name (arity 0) is T itself" % t1, "ok": n_fab > 0 and n_bind > 0 and fab_ok and bind_ok,
+                    "why": "fabricate %d, bind %d" % (n_fab, n_bind)})
+    # the helper: unify(name with arg 2), then unify_fixnum(arity, arg 3)
+    ns = [n for n in mir.index if n.endswith("::try_functor_unify_components")]
+    if len(ns) == 1:
+        b2 = mir.body(ns[0])
+        ok = False
+        for p in core.Executor(b2, max_depth=200, max_paths=200).run("bb0"):
+            uf = [e for e in p.events if e[0] == "call" and e[1].endswith("unify_fixnum")]
+            if uf:
+                ar = uf[0][2][1]
+                ok = ok or (ar[0] == "app" and ar[1].endswith("build_with_unchecked") and
+                            ar[2][0] in (("op", "cast:IntToInt", (("s", "_3"),)), ("s", "_3")))
+        out.append({"obligation": "functor/3: the arity unified with the third argument is the arity passed in",
+                    "ok": ok})
+    return out
+
+
 def run(thorough=False):
     queries, meta, structural = [], [], []
     try:
@@ -154,12 +247,14 @@ def run(thorough=False):
                         tag, rep, "o + N" if tag == "Str" else "l + N - 1")})
         if not queries:
             raise core.Unsupported("no Str / Lis arm recognised")
+        structural += functor_obligations(mir, tagname)
     except Exception as e:  # noqa
         log("  mirsmt C23: cannot analyse (%s)" % e)
         return {"exit": EXIT_INCONCLUSIVE, "mirsmt_error": str(e)}
     br = smt.check_batch(queries, thorough=thorough)
     res = {"evaluations": len(queries) + len(structural), "distinct_nontrivial": 0, "samples": [],
-           "mirsmt_regions": ["MachineState::try_arg (%d paths)" % len(paths)], "mirsmt_seconds": br["z3_s"]}
+           "mirsmt_regions": ["MachineState::try_arg (%d paths)" % len(paths), "MachineState::try_functor",
+                              "MachineState::try_functor_unify_components"], "mirsmt_seconds": br["z3_s"]}
     if br["results"] is None or (thorough and br["agree"] is False):
         res["exit"] = EXIT_INCONCLUSIVE
         return res
